@@ -3,6 +3,7 @@
    [exact <lemma>]; proofs live in Proofs/RsmApply.v. *)
 From DB Require Import Base.Bytes Gen.GenC05 Gen.GenC08 Model.RsmApply Proofs.RsmApply.
 From DB Require Model.Session Model.Membership.
+From DB Require Model.RaftCore Proofs.SnapshotFallback.
 Open Scope N_scope.
 
 (* ---- the apply path (internal/rsm/statemachine.go, raftpb/entry.go) ----------
@@ -241,6 +242,59 @@ Example stream_guard_nonvacuous :
   end.
 Proof. vm_compute. repeat split. Qed.
 
+(* ---- the raft side (internal/raft raft.go sendReplicateMessage, L1 model RaftCore) ------ *)
+Module RC := RaftCore.
+
+(* every message sendReplicateMessage emits is a Replicate whose entries are the
+   leader's log from the follower's next index on, with previous index next-1
+   (nothing skipped), or - when those entries are no longer in the log - an
+   InstallSnapshot carrying the leader's snapshot record *)
+Theorem replicate_or_snapshot : forall r to k rp,
+  RC.find_peer r to = Some (k, rp) ->
+  exists new, RC.r_msgs (RC.send_replicate r to) = RC.r_msgs r ++ new /\
+    (new = [] \/ exists x, new = [x] /\ RC.m_to x = to /\
+      ((RC.m_type x = GenRaft.mt_Replicate /\ RC.m_logindex x = RC.rm_next rp - 1 /\
+        exists ents0, RC.log_entries_from (RC.r_log r) (RC.rm_next rp) = Some ents0 /\
+          RC.m_entries x = match k with RC.KWitness => RC.make_metadata_entries ents0 | _ => ents0 end) \/
+       (RC.m_type x = GenRaft.mt_InstallSnapshot /\ RC.log_entries_from (RC.r_log r) (RC.rm_next rp) = None /\
+        RC.ss_index (RC.m_snapshot x) = RC.ss_index (RC.log_snapshot (RC.r_log r)) /\
+        RC.ss_index (RC.m_snapshot x) <> 0))).
+Proof. exact SnapshotFallback.replicate_or_snapshot_proved. Qed.
+Print Assumptions replicate_or_snapshot.
+
+(* A LAGGING FOLLOWER WHOSE ENTRIES WERE COMPACTED GETS A SNAPSHOT, NEVER A GAP: with
+   the follower's next entry below the leader's first available one, the only
+   message is an InstallSnapshot; because the log is never compacted above a
+   recorded snapshot (compaction_below_recorded_snapshot: marker <= snapshot index)
+   it reaches next-1 and the leader's marker, so after installing it the follower
+   needs only entries the leader still has *)
+Theorem compacted_follower_gets_snapshot : forall r to k rp,
+  RC.find_peer r to = Some (k, rp) ->
+  RC.rm_next rp < RC.log_first (RC.r_log r) -> RC.rm_next rp <= RC.log_last (RC.r_log r) ->
+  RC.l_marker (RC.r_log r) <= RC.ss_index (RC.log_snapshot (RC.r_log r)) ->
+  exists new, RC.r_msgs (RC.send_replicate r to) = RC.r_msgs r ++ new /\
+    (new = [] \/ exists x, new = [x] /\ RC.m_to x = to /\ RC.m_type x = GenRaft.mt_InstallSnapshot /\
+       RC.rm_next rp - 1 <= RC.ss_index (RC.m_snapshot x) /\
+       RC.log_first (RC.r_log r) <= RC.ss_index (RC.m_snapshot x) + 1).
+Proof. exact SnapshotFallback.compacted_follower_gets_snapshot_proved. Qed.
+Print Assumptions compacted_follower_gets_snapshot.
+
+(* the leader's log starts at 6 (marker 5, snapshot record at 6), follower 2 needs entry 3 *)
+Example compacted_follower_nonvacuous :
+  let l := RC.mkLog 5 1 [RC.mkEnt 1 6 0 0 0 0 0 []; RC.mkEnt 1 7 0 0 0 0 0 []] 7 7 7 None
+                    (RC.mkSnap 6 1 [1; 2] [] [] false false true 0) in
+  let r := RC.set_peer (RC.new_raft 1 RC.Follower 10 2 false false l [1; 2] [] [] None 0) RC.KRemote 2
+                       (RC.mkRemote 0 3 0 RC.RRetry true 0 false) in
+  (exists rp, RC.find_peer r 2 = Some (RC.KRemote, rp) /\ RC.rm_next rp < RC.log_first (RC.r_log r) /\
+              RC.rm_next rp <= RC.log_last (RC.r_log r)) /\
+  RC.l_marker (RC.r_log r) <= RC.ss_index (RC.log_snapshot (RC.r_log r)) /\
+  map (fun x => (RC.m_type x, RC.m_to x, RC.ss_index (RC.m_snapshot x), RC.m_entries x))
+      (RC.r_msgs (RC.send_replicate r 2)) = [(GenRaft.mt_InstallSnapshot, 2, 6, [])].
+Proof.
+  vm_compute. split; [|split; [discriminate|reflexivity]].
+  eexists. split; [reflexivity|]. split; [reflexivity|discriminate].
+Qed.
+
 (* ---- compaction (node.go doSave / compactLog / getCompactionIndex / recover /
    removeLog) ---------------------------------------------------------------- *)
 
@@ -318,6 +372,7 @@ Theorem source_tie :
   src_remove_log_order = true /\ src_save_raft_state_before_process_snapshot = true /\
   src_snapshot_update_not_fast_applied = true /\
   src_can_stream_guard = true /\ src_ready_to_stream = true /\ src_concurrent_save_syncs = true /\
-  src_membership_get_copies = true /\ src_send_snapshot_decision = true.
+  src_membership_get_copies = true /\ src_send_snapshot_decision = true /\
+  src_stream_task_outcome = true /\ src_chunk_sync_cond = true /\ src_batch_payload_own_buffer = true.
 Proof. exact source_tie_proved. Qed.
 Print Assumptions source_tie.
